@@ -43,7 +43,7 @@ PROBES = ["invalid_request_sent", "disconnect_mid_stream", "exception_mid_reques
 EXHAUSTIVE = {"quick": False, "thorough": False}
 
 KINDS = ["run_step", "run_step_nobody", "run_steps", "stream", "stream_disc", "run_steps_exc", "stream_exc",
-         "run_step_bad", "run_steps_bad", "stream_bad", "stream_nobody"]
+         "run_step_bad", "run_steps_bad", "stream_bad", "stream_nobody", "results", "keep_alive"]
 
 
 def client_of(kind, rng):
@@ -62,6 +62,8 @@ def client_of(kind, rng):
         return {"kind": "run_steps", "n": n, "raise_at": rng.randrange(n)}
     if kind == "stream_exc":
         return {"kind": "stream", "chunks": None, "body": True, "raise_at": rng.choice([0, 1, 2])}
+    if kind in ("results", "keep_alive"):
+        return {"kind": kind}          # a request that does not advance anything, in flight next to the stepping ones
     if kind == "run_step_bad":
         return {"kind": "run_step", "bad": rng.choice(["no_settings", "malformed"])}
     if kind == "run_steps_bad":
@@ -126,7 +128,7 @@ def plan(tier, verif_seed):
     # 3. triples
     rng = random.Random(derive_seed(verif_seed, PROPERTY, "triples"))
     for _ in range(60 if tier == "quick" else 400):
-        ks = [rng.choice(PAIR_KINDS) for _ in range(3)]
+        ks = [rng.choice(PAIR_KINDS + ["results", "keep_alive"]) for _ in range(3)]
         yield {"i": i, "mode": "random", "kinds": ks, "seed": derive_seed(verif_seed, PROPERTY, i)}
         i += 1
     if tier != "thorough":
@@ -218,6 +220,15 @@ def execute(case):
                        "status": None, "failed": False, "bad_shape": False}
                 if c.get("raise_at") is not None:
                     w.raise_at[tag] = c["raise_at"]
+                if c["kind"] in ("results", "keep_alive"):
+                    rr = w.get("/%s/session-results" % inst, tag=tag) if c["kind"] == "results" else w.post("/%s/keep-alive" % inst, tag=tag)
+                    rec["status"] = rr.status
+                    rec["noise"] = True
+                    if rr.status != 200:
+                        rec["failed"] = True
+                    log.add("return", tag, rec["status"], [], False)
+                    records[i] = rec
+                    return rec
                 if c.get("bad"):
                     res.fault("invalid_request")
                     res.probe("invalid_request_sent")
@@ -345,6 +356,11 @@ def execute(case):
                         res.violate("C18.a-interleaved", {"request": rec["tag"], "kind": rec["kind"],
                                                           "intruders": inter,
                                                           "intruder_kinds": sorted({clients[int(t[1:])]["kind"] for t in inter})})
+            # (read-only requests in flight next to the stepping ones are perturbation only: whether THEY are served is
+            #  not part of C18 - session-results can fail with "dictionary changed size during iteration" - and is not judged)
+            for rec in recs:
+                if rec.get("noise") and rec["status"] != 200:
+                    res.probe("read_request_failed_during_stepping")
             # (b) each response lists consecutive grid times
             for rec in recs:
                 ts = rec["times"]
